@@ -193,6 +193,9 @@ def run(chk, tmp, replay=None):
         res = core.tlc(os.path.join(tmp, "live_" + name), "InterruptMC.tla", "i.cfg", timeout=600, files={"i.cfg": cfg})
         core.tlc_must_pass(res, "Interrupt liveness " + name)
         chk.add_tlc(f"Interrupt liveness ({name}): ExitsEventually", res)
+    n, wall = core.tlapm(os.path.join(tmp, "proof"), "InterruptProof.tla")
+    chk.cov["proofs"] = [{"module": "InterruptProof.tla", "theorem": "Spec => [](NoResultForInterrupted /\\ InterruptedExitsNonZero /\\ LockReleasedAtExit) /\\ NoStartAfterSignal for any target set and dependency relation",
+                          "obligations_proved": n, "wall_s": wall, "tool": "tlapm (SMT, Zenon, Isabelle, PTL back ends)"}]
     grog = core.build_grog(tmp)
     clean = {}
     for shape in SHAPES:
